@@ -1,11 +1,15 @@
 //! This module represents the shared state of the h3 connection
 
-use std::{
-    borrow::Cow,
-    sync::{atomic::AtomicBool, OnceLock},
-};
+use std::borrow::Cow;
+#[cfg(not(feature = "verif-hooks"))]
+use std::sync::{atomic::AtomicBool, OnceLock};
 
+#[cfg(not(feature = "verif-hooks"))]
 use futures_util::task::AtomicWaker;
+
+// with the verification feature every operation on the shared state is a pre-emption point
+#[cfg(feature = "verif-hooks")]
+use crate::verif::shared::{AtomicBool, AtomicWaker, OnceLock};
 
 use crate::{config::Settings, error::internal_error::ErrorOrigin};
 
